@@ -111,13 +111,16 @@ fn key_classes(phase: Phase) -> Vec<KeyClass> {
 enum PKind {
     List, ListForeignRecipient, Issue, IssueLimitSubset, IssueLimitOutside,
     IssueBadClass, IssueOtherKey, RevokeOther, RevokeOwn, Reissue,
+    /// like IssueOtherKey, sent while the key's owner is suspended at the
+    /// parent (its certificate is then kept aside, not among the issued ones)
+    IssueOtherKeySuspended,
 }
 
-const PKINDS: [PKind; 10] = [
+const PKINDS: [PKind; 11] = [
     PKind::List, PKind::ListForeignRecipient, PKind::Issue,
     PKind::IssueLimitSubset, PKind::IssueLimitOutside, PKind::IssueBadClass,
     PKind::IssueOtherKey, PKind::RevokeOther, PKind::RevokeOwn,
-    PKind::Reissue,
+    PKind::Reissue, PKind::IssueOtherKeySuspended,
 ];
 
 impl PKind {
@@ -133,7 +136,11 @@ impl PKind {
             PKind::RevokeOther => "revoke-other-childs-key",
             PKind::RevokeOwn => "revoke-own-key",
             PKind::Reissue => "reissue",
+            PKind::IssueOtherKeySuspended => "issue-suspended-childs-key",
         }
+    }
+    fn other_key(self) -> bool {
+        matches!(self, PKind::IssueOtherKey | PKind::IssueOtherKeySuspended)
     }
     fn from_s(s: &str) -> Option<PKind> {
         PKINDS.iter().copied().find(|k| k.s() == s)
@@ -769,7 +776,7 @@ impl H {
                 issue(ResourceClassName::from("no-such-class"),
                       RequestResourceLimit::new(), own)
             }
-            PKind::IssueOtherKey => {
+            PKind::IssueOtherKey | PKind::IssueOtherKeySuspended => {
                 issue(class, RequestResourceLimit::new(), others)
             }
             PKind::RevokeOther => Ok((
@@ -895,6 +902,37 @@ impl H {
         let registered = self.reg_child
             .get(&(ca.to_string(), sender.to_string())).copied();
         let auth = registered == Some(kc.ident) && !kc.expired;
+        let owner = other_child(sender);
+        let mut suspended_owner = false;
+        // (key, resources) of the owner's certificates before it is suspended
+        let reduce = |v: &Value| -> Vec<(String, String)> {
+            let mut out = vec![];
+            for class in v["classes"].as_array().cloned().unwrap_or_default() {
+                for c in class["certs"].as_array().cloned().unwrap_or_default() {
+                    out.push((c["key"].as_str().unwrap_or("").to_string(),
+                              c["resources"].as_str().unwrap_or("").to_string()));
+                }
+            }
+            out.sort();
+            out
+        };
+        let owner_before = reduce(&self.child_view(
+            ca, owner, &self.w.publisher_files()));
+        if kind == PKind::IssueOtherKeySuspended
+            && self.reg_child.contains_key(&(ca.to_string(), owner.to_string()))
+        {
+            match self.w.suspend_child(ca, owner, true) {
+                Ok(()) => {
+                    suspended_owner = true;
+                    let _ = self.pump();
+                    *pre = self.snapshot();
+                    r.count("owner_suspended_cases", 1);
+                }
+                Err(e) => {
+                    r.inconclusive(format!("cannot suspend {owner}: {e}"));
+                }
+            }
+        }
         let (msg, limit, key) = match self.prov_msg(kind, sender, ca) {
             Ok(x) => x,
             Err(e) => {
@@ -1052,7 +1090,7 @@ impl H {
             let what = foreign.iter().map(|s| s.as_str())
                 .collect::<Vec<_>>().join("; ");
             let sibling = format!("/views/{ca}:{}", other_child(sender));
-            let sig = if kind == PKind::IssueOtherKey
+            let sig = if kind.other_key()
                 && foreign.iter().all(|p| p.starts_with(&sibling))
             {
                 "rfc6492:sibling-certificate-replaced:issue-for-key-\
@@ -1124,7 +1162,7 @@ impl H {
             }
             (PKind::Issue | PKind::Reissue | PKind::IssueLimitSubset
              | PKind::IssueLimitOutside | PKind::IssueOtherKey
-             | PKind::IssueBadClass,
+             | PKind::IssueOtherKeySuspended | PKind::IssueBadClass,
              Some(Payload::IssueResponse(resp))) => {
                 let issued = resp.clone().into_issued();
                 let cert = issued.cert();
@@ -1230,7 +1268,31 @@ impl H {
         *pre = post;
         // keep the base line: when the sender obtained a certificate for
         // the other child's key, give it back and let the owner re-issue
-        if kind == PKind::IssueOtherKey && positive {
+        if suspended_owner {
+            // un-suspend the owner; it asks for its certificate again
+            let a = self.w.suspend_child(ca, owner, false);
+            let _ = self.pump();
+            let owner_after = reduce(&self.child_view(
+                ca, owner, &self.w.publisher_files()));
+            r.eval();
+            if a.is_ok() && owner_after != owner_before {
+                self.viol(r,
+                    "rfc6492:suspended-sibling-certificate-taken-over",
+                    format!("{owner} held {owner_before:?} at {ca} before it \
+                             was suspended; after {sender}'s request for its \
+                             key and its un-suspension it holds \
+                             {owner_after:?}"),
+                    &case, json!({"kind": kind.s()}));
+            }
+            let b = self.legit_prov(PKind::Issue, owner, ca).map(|_| ());
+            if a.is_err() || b.is_err() {
+                r.inconclusive("could not restore the base line after the \
+                                owner's suspension");
+                self.dead = true;
+            }
+            *pre = self.snapshot();
+        }
+        if kind.other_key() && positive {
             r.count("issue_other_key_answered_with_cert", 1);
             let a = self.legit_prov(PKind::RevokeOther, sender, ca);
             let owner = other_child(sender);
